@@ -50,8 +50,12 @@ class Oracle(object):
         return
       if _stale_params(h, D):
         return          # params from another dataset: the plan's own failing fit
-      raise Violation("fit_raises", "cls=%s,exc=%s" % (name, et),
-                      "fit on well-formed input raised %s: %s" % (et, str(exc)[:300]))
+      why = ",psd_within_rounding" if live.get("psd_within_rounding") else ""
+      raise Violation("fit_raises", "cls=%s,exc=%s%s" % (name, et, why),
+                      "fit on well-formed input raised %s: %s%s"
+                      % (et, str(exc)[:300], " (the matrix handed to the PSD conversion is PSD up to "
+                         "rounding: the eigen-solver's noise exceeded the conversion's default tolerance)"
+                         if why else ""))
     if _stale_params(h, D):
       return            # outside the property's option domain for this dataset
     self.checked += 1
